@@ -59,7 +59,18 @@ def score_fn(method):
     raise ValueError(method)
 
 
+class Degenerate(Exception):
+    """the measure is undefined for this pair (zero-norm / constant vector after restriction to a fold)"""
+
+
 def sim(method, x, y, n_cond):
+    try:
+        return _sim(method, x, y, n_cond)
+    except ZeroDivisionError:
+        raise Degenerate()
+
+
+def _sim(method, x, y, n_cond):
     if method == 'cosine':
         return ref.cosine(x, y)
     if method == 'corr':
@@ -345,6 +356,9 @@ def run(ctx):
             ctx.notes.append(f'time budget reached after {it} rounds')
             break
         m = METHODS[it % len(METHODS)]
-        run_boot(ctx, m)
-        if it % 3 == 0:
-            run_cv(ctx, gen.pick(ctx.rng, ['cosine', 'corr', 'rho-a']))
+        try:
+            run_boot(ctx, m)
+            if it % 3 == 0:
+                run_cv(ctx, gen.pick(ctx.rng, ['cosine', 'corr', 'rho-a']))
+        except Degenerate:
+            ctx.count('degenerate_skipped')
